@@ -147,6 +147,7 @@ class ProgGen:
             lambda: "Annotated[()]", lambda: "Optional[()]", lambda: "Literal[()]", lambda: "Callable[()]", lambda: "List[()]", lambda: "Final[()]",
             lambda: "Callable[[typing.ParamSpec('P'), int], int]", lambda: "Callable[[int, typing.ParamSpec('P')], int]", lambda: "Callable[typing.ParamSpec('P'), int]",
             lambda: "Callable[[int, *Ts], int]", lambda: "Callable[[*tuple[int, ...]], %s]" % a(), lambda: "typing.Concatenate[int, typing.ParamSpec('P')]",
+            lambda: "Callable[typing.Concatenate[int, typing.ParamSpec('P')], %s]" % a(),
             lambda: "Optional[%s, %s]" % (a(), a()),
             lambda: "list[int][str]",
             lambda: "List[%s, %s]" % (a(), a()),
@@ -169,7 +170,8 @@ class ProgGen:
             lambda: "{%s: %s}" % (a(), a()),
             lambda: "lambda: int",
             lambda: "int if x else str",
-            lambda: "%s()" % self.ch(list(self.funcs) + ["int", "undef0", "TypeVar", "NewType"]),
+            # (never a function of the generated module: pyanalyze *evaluates* deferred / quoted annotations, which would run its random body)
+            lambda: "%s()" % self.ch(["int", "undef0", "TypeVar", "NewType", "dict", "object"]),
             lambda: "TypeVar('Q', bound=%s)" % a(),
             lambda: "NewType('Q', %s)" % a(),
             lambda: "%s.%s" % (self.ch(["typing", "os", "undef0", "int"] + self.classes[:2]), self.ch(["List", "path", "x", "Any"])),
@@ -797,9 +799,7 @@ class ProgGen:
             elif r < 0.85:
                 self.f("staticmethod")
                 out += self.funcdef(csc, d, method=None, decorators=["staticmethod"], nested=False, name=self.fresh("sm"))
-            elif r < 0.93 and flavour in ("plain", "init", "slots") is False:
-                out.append("%s = %s" % (self.fresh("cv"), self.ch(["0", "'a'", "[]", "None", "(1, 2)"])))
-            elif flavour in ("plain", "init"):
+            elif r < 0.93 and flavour in ("plain", "init"):
                 out += self.toplevel_annassign(in_class=True)
             else:
                 out.append("%s = %s" % (self.fresh("cv"), self.ch(["0", "'a'", "[]", "None", "(1, 2)"])))
